@@ -26,3 +26,13 @@ func SilenceStdout() {
 		os.Stdout = f
 	}
 }
+
+// RealStdout is the process's original standard output (SilenceStdoutKeep
+// redirects os.Stdout but keeps this one for results).
+var RealStdout = os.Stdout
+
+// SilenceStdoutKeep silences os.Stdout like SilenceStdout; RealStdout stays usable.
+func SilenceStdoutKeep() {
+	RealStdout = os.Stdout
+	SilenceStdout()
+}
